@@ -206,7 +206,7 @@ func (e *env) runInsufficient(b batch, rnd *rand.Rand) {
 	// which every answer was a rejection is a side effect despite rejection.
 	c.Count("batches-with-fingerprint-change", 1)
 	all := append([]string{}, d...)
-	for pass := 0; pass < 4; pass++ {
+	for pass := 0; pass < 3; pass++ {
 		e.repair()
 		newEscape := false
 		var again []oneCase
@@ -247,6 +247,9 @@ func (e *env) runInsufficient(b batch, rnd *rand.Rand) {
 		if k.Verdict == vEscaped {
 			hadEscape = true
 		}
+	}
+	if hadEscape {
+		e.dirty++
 	}
 	if !hadEscape && len(all) == len(d) {
 		c.Inconclusive("fingerprint-change-not-reproduced:"+b.Key, 1)
@@ -304,7 +307,9 @@ func (e *env) report(b batch, cases []oneCase, diff []string) {
 			cl = append(cl, k)
 		}
 		sort.Strings(cl)
-		c.Violation("privilege-bypass:"+b.Key+":"+strings.Join(cl, "+"),
+		// the set of classes served depends on request order for acting requests (the second
+		// DELETE finds nothing), so it is in the text and the witness, not in the signature
+		c.Violation("privilege-bypass:"+b.Key+":needs="+b.Need.String(),
 			fmt.Sprintf("[%s] %s needs %s but served %s (e.g. %s -> %d %q)%s", e.tag(), b.Key, b.Need, strings.Join(cl, ", "),
 				escUser[0].Cred.key(), escUser[0].Resp.Status, trunc(escUser[0].Resp.Body, 80), side), wit(escUser))
 	}
@@ -324,6 +329,9 @@ func (e *env) repair() {
 			fmt.Printf("[%s] timing repair %.2fs\n", e.tag(), time.Since(t0).Seconds())
 		}
 	}()
+	if !e.restartIfDead("repair") {
+		return
+	}
 	keepDB := map[string]bool{db1: true, db2: true, sacDB: true, "_internal": true}
 	if e.fl.LogKeeper {
 		keepDB[repo1], keepDB["sacrepo"] = true, true
@@ -343,6 +351,28 @@ func (e *env) repair() {
 		for _, u := range column(res, 0) {
 			if !keepU[u] {
 				_, _ = e.adminQ("", fmt.Sprintf(`DROP USER "%s"`, u))
+			}
+		}
+	}
+	// extra retention policies / log streams and measurements inside the kept databases
+	wantRP := map[string]bool{"autogen": true, stream1: true}
+	wantMst := map[string]bool{mst1: true, stream1: true}
+	for db := range keepDB {
+		if db == "_internal" {
+			continue
+		}
+		if res, err := e.adminQ("", fmt.Sprintf(`SHOW RETENTION POLICIES ON "%s"`, db)); err == nil {
+			for _, rp := range column(res, 0) {
+				if !wantRP[rp] {
+					_, _ = e.adminQ("", fmt.Sprintf(`DROP RETENTION POLICY "%s" ON "%s"`, rp, db))
+				}
+			}
+		}
+		if res, err := e.adminQ(db, "SHOW MEASUREMENTS"); err == nil {
+			for _, m := range column(res, 0) {
+				if !wantMst[m] {
+					_, _ = e.adminQ(db, fmt.Sprintf(`DROP MEASUREMENT "%s"`, m))
+				}
 			}
 		}
 	}
